@@ -4,6 +4,7 @@ import (
 	"context"
 	"errors"
 	"fmt"
+	"strings"
 	"time"
 
 	lime "github.com/takenet/lime-go"
@@ -21,6 +22,8 @@ type PlanC12 struct {
 	SendCtxMs     int       `json:"send_ctx_ms"`     // per-send context deadline, 0 = none
 	RecvCtxMs     int       `json:"recv_ctx_ms"`     // per-receive context deadline, 0 = none
 	RecvRetry     int       `json:"recv_retry"`      // how often the receiver calls Receive again after a receive context expired
+	SendRetry     int       `json:"send_retry"`      // how often the sender goes on with the next envelope after a Send whose context ended
+	Trace         bool      `json:"trace"`           // both transports are configured with a TraceWriter
 	SendGapMs     int       `json:"send_gap_ms"`     // pause between sends
 	Family        string    `json:"family"`
 }
@@ -67,6 +70,18 @@ func genC12(t *simrt.Tape, tier string) interface{} {
 	if t.Draw(4) == 0 {
 		p.SendGapMs = []int{1, 100, 5200}[t.Draw(3)]
 	}
+	if t.Draw(6) == 0 {
+		// a sender that gives up on one envelope when its context ends and goes on with the next
+		p.SendCtxMs = []int{1, 50, 700, 2000, 6000}[t.Draw(5)]
+		p.SendRetry = 1 + t.Draw(6)
+		if p.Faults.Capacity == 0 {
+			p.Faults.Capacity = []int{1, 16, 64, 200}[t.Draw(4)]
+		}
+		if p.ReaderPauseMs == 0 {
+			p.ReaderPauseMs = []int{400, 4900, 5100, 11000}[t.Draw(4)]
+		}
+	}
+	p.Trace = t.Draw(6) == 0
 	// keep the link's throughput within what a run's simulated-time budget can carry
 	for _, f := range []*FaultSpec{&p.Faults, &p.Back} {
 		if f.Capacity > 0 && f.Capacity < 64 && total/f.Capacity > 400 {
@@ -229,7 +244,11 @@ func runC12(w *World, pi interface{}) {
 	if p.Reverse {
 		faults = [2]FaultSpec{p.Back, p.Faults}
 	}
-	pair, err := TCPPair(w, 7000, &lime.TCPConfig{TLSConfig: cliTLS}, &lime.TCPConfig{TLSConfig: srvTLS}, faults)
+	cliCfg, srvCfg := &lime.TCPConfig{TLSConfig: cliTLS}, &lime.TCPConfig{TLSConfig: srvTLS}
+	if p.Trace {
+		cliCfg.TraceWriter, srvCfg.TraceWriter = newDiscardTrace(), newDiscardTrace()
+	}
+	pair, err := TCPPair(w, 7000, cliCfg, srvCfg, faults)
 	if err != nil {
 		w.Violate("C12.setup", "pair", "cannot connect the transport pair: %v", err)
 		return
@@ -261,14 +280,23 @@ func runC12(w *World, pi interface{}) {
 
 	go func() {
 		defer senderDone.Set()
+		sendRetries := 0
 		for _, e := range envs {
 			ctx, cancel := context.Background(), context.CancelFunc(func() {})
 			if p.SendCtxMs > 0 {
 				ctx, cancel = context.WithTimeout(ctx, time.Duration(p.SendCtxMs)*time.Millisecond)
 			}
 			err := SendEnv(ctx, sender, e)
+			ended := ctx.Err() != nil
 			cancel()
 			sends = append(sends, sendRes{err})
+			if err != nil && ended && sendRetries < p.SendRetry && sender.Connected() {
+				// the failed operation reported its error; a caller may go on with the next
+				// envelope, and whatever the receiver is handed must still be intact and in order
+				sendRetries++
+				w.Count("sent-again-after-context-ended")
+				continue
+			}
 			if err != nil {
 				w.Count("send-failed")
 				break
@@ -334,20 +362,51 @@ func runC12(w *World, pi interface{}) {
 			nOK++
 		}
 	}
-	// the receiver is never handed a corrupted, duplicated, reordered or fabricated envelope
+	// The receiver is never handed a corrupted, duplicated, reordered or fabricated envelope:
+	// what it receives is, in order, the envelopes whose Send was attempted; one whose Send
+	// reported an error may be missing (or present), one whose Send returned nil may not be
+	// skipped by a later one.
+	pos := 0
+	gotOK := 0
 	for i, c := range received {
-		if i >= len(envs) {
-			w.Violate("C12.fabricated", "extra-envelope", "received %d envelopes but only %d were sent; extra: %s", len(received), len(envs), short(c, 300))
+		j := -1
+		for k := pos; k < len(sends) && k < len(envs); k++ {
+			if envs[k].Canon == c {
+				j = k
+				break
+			}
+		}
+		if j < 0 {
+			what := "corrupted"
+			for k := 0; k < pos; k++ {
+				if envs[k].Canon == c {
+					what = "duplicated-or-reordered"
+				}
+			}
+			want := "(nothing more was sent)"
+			if pos < len(envs) {
+				want = short(envs[pos].Canon, 400)
+			}
+			if what == "corrupted" && pos >= len(sends) {
+				w.Violate("C12.fabricated", "extra-envelope", "received %d envelopes, the %d-th is none of the %d whose Send was attempted: %s", len(received), i, len(sends), short(c, 300))
+			} else {
+				w.Violate("C12."+strings.SplitN(what, "-", 2)[0], "position-mismatch", "envelope #%d received is not the next envelope sent (%s)\n got: %s\nnext sent: %s", i, what, short(c, 400), want)
+			}
 			break
 		}
-		if c != envs[i].Canon {
-			w.Violate("C12.corrupted", "position-mismatch", "envelope #%d received differs from envelope #%d sent\n got: %s\nwant: %s", i, i, short(c, 400), short(envs[i].Canon, 400))
-			break
+		for k := pos; k < j; k++ {
+			if sends[k].err == nil {
+				w.Violate("C12.lost", "acked-send-skipped", "envelope #%d was received but envelope #%d, whose Send returned nil before it, was not", j, k)
+			}
 		}
+		if sends[j].err == nil {
+			gotOK++
+		}
+		pos = j + 1
 	}
 	noCut := p.Faults.Benign() && p.Back.Benign()
-	if noCut && p.RecvCtxMs == 0 && len(received) < nOK {
-		w.Violate("C12.lost", "acked-send-not-received", "%d sends returned nil but only %d envelopes were received (receive error: %v) although the link was never cut", nOK, len(received), recvErr)
+	if noCut && p.RecvCtxMs == 0 && gotOK < nOK {
+		w.Violate("C12.lost", "acked-send-not-received", "%d sends returned nil but only %d of them were received (%d envelopes in all; receive error: %v) although the link was never cut", nOK, gotOK, len(received), recvErr)
 	}
 	sender.Close()
 	receiver.Close()
@@ -365,7 +424,7 @@ func init() {
 		},
 		Run:    runC12,
 		MaxSim: 4 * time.Hour,
-		Rule: "plans = (envelope stream from the rich generator, TLS on/off, direction, per-direction fault plan: fragmentation mode, latency list, send-buffer capacity, stalls, cut offset+kind, reader pause, send/receive context deadlines, a polling receiver that calls Receive again after a receive context expired); " +
+		Rule: "plans = (envelope stream from the rich generator, TLS on/off, direction, per-direction fault plan: fragmentation mode, latency list, send-buffer capacity, stalls, cut offset+kind, reader pause, send/receive context deadlines, a polling receiver that calls Receive again after a receive context expired, a sender that goes on with the next envelope after a Send whose context ended, transports with a TraceWriter); " +
 			"systematic families (every split point, pairs of split points, every cut offset x FIN/RST, every short-write length with a write timeout, every coalescing boundary, stalls around the 5 s poll, a stall longer than the receive context at every offset of a stream with an envelope-shaped JSON payload followed by Receive again) are enumerated first, then random plans; " +
 			"a run is non-trivial when both real transports connected (and upgraded to TLS when asked) and at least one Send was attempted; distinct = distinct (plan JSON, event-log hash) pairs",
 	})
